@@ -1,5 +1,6 @@
 From GV Require Import Base.Grammar Base.Analyses LR.Automaton LR.Validator LR.Spec LR.Sound LR.Complete.
 
+From GV Require Import Common.Outcome LR.CloseMirror LR.CloseSpec LR.CloseProofs.
 Theorem C01_lr_sound : lr_sound_stmt.
 Proof. exact lr_sound. Qed.
 Print Assumptions C01_lr_sound.
@@ -23,3 +24,49 @@ Print Assumptions C01_lr_rejects_nonsentences.
 Theorem C01_run_fuel_mono : run_fuel_mono_stmt.
 Proof. exact run_fuel_mono. Qed.
 Print Assumptions C01_run_fuel_mono.
+
+(* table construction, part proved: Itemset::close and Itemset::goto (mirrors of the Rust loops) compute the LR(1) closure / goto *)
+
+Theorem C01_close_mirror_sound : close_mirror_sound_stmt.
+Proof. exact close_mirror_sound. Qed.
+Print Assumptions C01_close_mirror_sound.
+
+Theorem C01_close_mirror_complete : close_mirror_complete_stmt.
+Proof. exact close_mirror_complete. Qed.
+Print Assumptions C01_close_mirror_complete.
+
+Theorem C01_close_mirror_result_ok : close_mirror_result_ok_stmt.
+Proof. exact close_mirror_result_ok. Qed.
+Print Assumptions C01_close_mirror_result_ok.
+
+Theorem C01_close_mirror_terminates : close_mirror_terminates_stmt.
+Proof. exact close_mirror_terminates. Qed.
+Print Assumptions C01_close_mirror_terminates.
+
+Theorem C01_close_mirror_never_panics : close_mirror_never_panics_stmt.
+Proof. exact close_mirror_never_panics. Qed.
+Print Assumptions C01_close_mirror_never_panics.
+
+Theorem C01_close_mirror_order_insensitive : close_mirror_order_insensitive_stmt.
+Proof. exact close_mirror_order_insensitive. Qed.
+Print Assumptions C01_close_mirror_order_insensitive.
+
+Theorem C01_goto_mirror_spec : goto_mirror_spec_stmt.
+Proof. exact goto_mirror_spec. Qed.
+Print Assumptions C01_goto_mirror_spec.
+
+Theorem C01_first_of_form_split : first_of_form_split_stmt.
+Proof. exact first_of_form_split. Qed.
+Print Assumptions C01_first_of_form_split.
+
+Theorem C01_lr1_textbook_incl : lr1_textbook_incl_stmt.
+Proof. exact lr1_textbook_incl. Qed.
+Print Assumptions C01_lr1_textbook_incl.
+
+Theorem C01_lr1_textbook_agrees : lr1_textbook_agrees_stmt.
+Proof. exact lr1_textbook_agrees. Qed.
+Print Assumptions C01_lr1_textbook_agrees.
+
+Theorem C01_close_mirror_sound_textbook_refuted : close_mirror_sound_textbook_refuted_stmt.
+Proof. exact close_mirror_sound_textbook_refuted. Qed.
+Print Assumptions C01_close_mirror_sound_textbook_refuted.
